@@ -749,6 +749,24 @@ func (g *Gen) toEdge(from, to *ssa.BasicBlock, cond Term, in map[*ssa.BasicBlock
 		return
 	}
 	c := g.define(fmt.Sprintf("edge_%d_%d", from.Index, to.Index), cond)
+	// loop exit clauses: checked separately on each exit edge (small queries), then available after the join
+	for _, li := range g.loops {
+		if li.spec == nil || len(li.spec.Exit) == 0 || !li.blocks[from] || li.blocks[to] {
+			continue
+		}
+		saved, savedPos, savedLoop := g.reach, g.curPos, g.curLoop
+		g.reach = c
+		g.curPos = li.pos
+		g.curLoop = li
+		cx := g.ctxHere()
+		for k, v := range li.ghosts {
+			cx.vars[k] = v
+		}
+		for _, ex := range li.spec.Exit {
+			g.obligeClause(fmt.Sprintf("exit[%d]", li.ordinal), g.evalBool(ex.Expr, cx, ex), ex)
+		}
+		g.reach, g.curPos, g.curLoop = saved, savedPos, savedLoop
+	}
 	in[to] = append(in[to], edge{from: from, cond: c, st: g.st.clone()})
 }
 
